@@ -38,6 +38,7 @@ type gen struct {
 	nextID int
 	ops    []string
 	now    int64
+	desc   bool // also ask search.Handler.Describe (bounded: a handler is never released)
 }
 
 func newGenWorld(r *hk.Run) *gen {
@@ -321,7 +322,7 @@ func (g *gen) check(kind, mode string, p int, attr string, t int64, f string, ob
 		}
 	}
 	sig := kind + "-differs-" + mode
-	if mode != "idx" && sawDel {
+	if mode != "idx" && sawDel && kind != "describe" {
 		// does the answer equal the fold that ignores deletions of attribute claims?
 		csAll, _ := g.relevant(p, attr, t, f, true)
 		if all, _, ok := linearise(csAll); ok {
@@ -363,6 +364,33 @@ func (g *gen) qHas(mode string, p int, attr, val string, t int64) {
 	line := fmt.Sprintf("has %s %d %s %s %s", mode, p, hk.Hex([]byte(attr)), hk.Hex([]byte(val)), tArg(t))
 	out := g.op(line)
 	g.check("has", mode, p, attr, t, "a", out, func(vs []string) string { return b2s(contains(vs, val)) }, line)
+}
+
+// normalise: Describe presents an attribute as a set of non-empty values (first occurrence kept)
+func normalise(vs []string) []string {
+	var out []string
+	for _, v := range vs {
+		if v != "" && !contains(out, v) {
+			out = append(out, v)
+		}
+	}
+	return out
+}
+
+// qDesc: search.Handler.Describe of the permanode by owner s; the zero time means all claims here
+// (DescribeRequest.At), so the oracle uses the largest time for it.
+func (g *gen) qDesc(mode string, p int, attr string, t int64, s int) {
+	line := fmt.Sprintf("desc %s %d %s %s %d", mode, p, hk.Hex([]byte(attr)), tArg(t), s)
+	out := g.op(line)
+	if g.r == nil {
+		return
+	}
+	g.r.Hit("describe:" + mode)
+	ot := t
+	if t == 0 {
+		ot = MaxTime
+	}
+	g.check("describe", mode, p, attr, ot, strconv.Itoa(s), out, func(vs []string) string { return showStrs(normalise(vs)) }, line)
 }
 
 // qVia observes which source the corpus uses; the cache may only be used when no claim row of the
